@@ -15,7 +15,9 @@ def run(res, tier, seed, replay):
     else:
         recs = ss.corpus_recs("C08", dump=True)
         r4, h4 = ss.run_streams([("conflict", 127 & ~16, "sync", "debug", 1500 * (1 if tier == "quick" else 25)),
-                                 ("conflict", 127 & ~16, "yield", "debug", 300 * (1 if tier == "quick" else 25))], seed + 37, dump=True)
+                                 ("conflict", 127 & ~16, "yield", "debug", 300 * (1 if tier == "quick" else 25)),
+                                 ("conflict", 127 & ~16, "gated:lifo", "debug", 300 * (1 if tier == "quick" else 25)),
+                                 ("conflict", 127 & ~16, "gated:random", "debug", 300 * (1 if tier == "quick" else 25))], seed + 37, dump=True)
         recs += r4
         n = 1 if tier == "quick" else 30
         f = ss.F_NOSOFT & ~16  # no unions: root requirements must be single version sets
@@ -49,6 +51,21 @@ def run(res, tier, seed, replay):
         elif "trace" in r and not (r["trace"].get("db") and r["trace"].get("run") and r["trace"].get("strict")):
             res.tie_break(f"trace inclusion (C08_trace_explicit) no longer checks for a run in {r['stream']}: checker verdict "
                           f"{r['trace']}; the returned solution contains the first-ranked root candidates", tc.trace_replay(r))
+    if res.tie_breaks and not res.violations and not replay:
+        vlib.log("trace tie broken; searching for a failing input (explicit-first oracle on a large conflict-heavy burst)")
+        f2 = ss.F_NOSOFT & ~16
+        burst, _ = ss.run_streams([("conflict", f2, "sync", "release", 40000), ("conflict", f2 & ~8, "sync", "release", 20000)], seed + 2001)
+        bref = ss.oracle_ref(burst)
+        for r in burst:
+            fs = bref[r["key"]]["first"]
+            if fs is None or ss.outcome_kind(r["obs"]["outcome"]) != "sat":
+                continue
+            sol = r["obs"]["outcome"]["sat"]
+            missing = [x for x in fs if x not in sol]
+            if missing:
+                res.violation(r["key"], f"first-ranked root candidates {fs} are jointly installable but the solution {sol} lacks {missing} "
+                              f"(found by the search burst) in {r['stream']}", ss.replay_obj(r))
+        res.extra["search_burst_cases"] = len(burst)
     res.rule = ("hard problems whose root requirements are single version sets; applicable when the Coq-verified reference "
                 "finds a valid selection containing every root requirement's first-ranked candidate; non-trivial = "
                 "applicable and not conflict-free (greedy_okb rejects), i.e. some lower-level choice must deviate")
